@@ -40,8 +40,9 @@ def build_harness():
         subprocess.run(["rsync", "-a", "--delete", "--exclude", "target", src + "/", HARNESS + "/"], check=True)
         ct = os.path.join(HARNESS, "Cargo.toml")
         open(ct, "w").write(open(os.path.join(src, "Cargo.toml")).read().replace('path = "/repo"', 'path = "%s"' % REPO))
-        if not os.path.exists(os.path.join(HARNESS, "target")) and os.path.exists(os.path.join(src, "target")):
-            subprocess.run(["cp", "-a", os.path.join(src, "target"), os.path.join(HARNESS, "target")], check=True)
+        seed = os.environ.get("VERIF_TARGET_SEED", os.path.join(src, "target"))
+        if not os.path.exists(os.path.join(HARNESS, "target")) and os.path.exists(seed):
+            subprocess.run(["cp", "-a", seed, os.path.join(HARNESS, "target")], check=True)
     p = subprocess.run(["cargo", "build", "--offline"], cwd=HARNESS, env=env, stdout=subprocess.PIPE, stderr=subprocess.STDOUT, text=True)
     if p.returncode != 0:
         tail = "\n".join(p.stdout.splitlines()[-40:])
@@ -96,8 +97,11 @@ def run_enum(en, ename, tier, wd):
     """Every behaviour of a small driver-only configuration, by breadth-first search."""
     t = configs.TIERS[tier]
     consts = dict(en["consts"])
-    consts["Budget"] = t["enum_budget"]
-    consts["MaxOps"] = t["enum_budget"]
+    if "budget" in en:
+        consts["Budget"] = en["budget"][tier]          # the configuration fixes MaxOps / BodyOps itself
+    else:
+        consts["Budget"] = t["enum_budget"]
+        consts["MaxOps"] = t["enum_budget"]
     cfg = os.path.join(wd, "Enum_%s.cfg" % ename)
     tlc.write_cfg(cfg, "GSpec", consts, invariants=["NoViol", "Emitted"], subst=en["subst"])
     res = tlc.run("Gen.tla", cfg, os.path.join(wd, "enum_" + ename), workers=8, timeout=t["enum_timeout"])
